@@ -149,11 +149,26 @@ def sweep(f, cells, what, res, detail):
 def run_one(tape, tier, prop):
     res = RunResult()
     t = tape
-    spec = gen_world(t)
     wr = scratch.fresh_disk()
     rdir = os.path.join(wr, "Rules", "R")
-    worlds.write_ruleset(spec, rdir)
-    res.sample = {"ruleset": worlds.spec_summary(spec)}
+    spec = None
+    if t.chance(1, 4):
+        # a ruleset written by the real trainer: relative frequencies whose float sums drift below 1
+        from .. import trainer
+        pws, opts = trainer.gen_list(t, {"nonascii": t.chance(1, 3)}, max_lines=25)
+        if opts["coverage"] == 0.0:
+            opts["coverage"] = 0.5
+        with guesser.streams():
+            tr = trainer.train(pws, opts)
+        if tr.ok:
+            spec = {"base": [[s, repr(p)] for s, p in RefRuleset(rdir).raw_base], "vars": {"trained": pws[:12]}}
+            res.sample = {"ruleset": "trained", "passwords": pws[:12], "opts": opts}
+            res.stats["trained_rulesets"] += 1
+    if spec is None:
+        wr = scratch.fresh_disk()
+        spec = gen_world(t)
+        worlds.write_ruleset(spec, rdir)
+        res.sample = {"ruleset": worlds.spec_summary(spec)}
     import lib_guesser.pcfg_grammar as pg
     import lib_guesser.honeyword_session as hs
     has_m = any(b[0] == "M" for b in spec["base"])
@@ -162,6 +177,11 @@ def run_one(tape, tier, prop):
     skip_case = t.chance(1, 4)
     res.sample["flags"] = {"skip_brute": skip_brute, "skip_case": skip_case}
     ref = RefRuleset(rdir, skip_brute=skip_brute, skip_case=skip_case)
+    if any("M" in b["replacements"] for b in ref.base) and not ref.vars["M"]:
+        # a Markov structure whose variable has no level at all (the trainer found no keyspace anywhere): not a
+        # well-formed ruleset; the default guesser cannot start on it either
+        res.rejected = "markov_variable_without_entries"
+        return res
     with guesser.streams():
         pcfg = guesser.load(rdir, skip_brute=skip_brute, skip_case=skip_case)
     saved = (pg.random, hs.random)
@@ -276,6 +296,12 @@ def run_one(tape, tier, prop):
                     res.violate("C16", "run_raised_before_N_words", {"mode": mode, "limit": N, "written": len(seam),
                                                                      "draw_style": ["top", "zero", "mixed", "uniform"][style],
                                                                      "exception": r.exc[-500:]})
+                    break
+                if len(set(rng.seeds)) != len(rng.seeds):
+                    res.violate("C16", "generator_reseeded_with_the_same_seed", {"mode": mode, "seeds": rng.seeds[:8]})
+                    break
+                if mode == "random_walk" and rng.seeds[:1] != [1]:
+                    res.violate("C16", "random_walk_not_seeded_reproducibly", {"seeds": rng.seeds[:4]})
                     break
                 words = guesser.split_lines(text)
                 if len(words) != N:
